@@ -122,6 +122,8 @@ def check(pm: ProgramModel, ctx: Ctx) -> None:
     if m1 is not None:
         cd.report("COMBINED", "rich-model", cd.last_rt, "model realising all dimensions at once",
                   ("abstract", "type", "fcard", "attribute"), fragment=False)
+    if ctx.tier == "thorough":
+        cd.thorough_pairs(mb, BINARY_LOGICAL, "VOC")
     cd.finish_unowned()
     ctx.analysed["C08:compositions"] = cd.n
     ctx.floor("C08", "obligations", len(ctx.obligations), 40)
